@@ -12,6 +12,7 @@ import copy
 import difflib
 import json
 import logging
+import math
 import os
 import pprint
 import re
@@ -4385,8 +4386,11 @@ class FlowIR(object):
 
                 weights.append(stage_weight)
 
+            # VV: stage weights must be finite, non-negative numbers - otherwise fall back to the default weights
+            weights_ok = all([math.isfinite(e) and e >= 0.0 for e in weights])
+
             # VV: adding floats is hard, let's assume that there're at most 2 decimals
-            int_weights = [int(e * 1000) for e in weights]
+            int_weights = [int(e * 1000) for e in weights] if weights_ok else []
 
             if sum(int_weights) != 1000:
                 fallbackWeight = int(1000 / num_stages) / 1000.0
